@@ -15,7 +15,7 @@ from harness import util
 THEOREMS = ['C04_tref_split_invariance', 'C04_tref_split_invariance_moist', 'C04_tref_split_closed_form',
             'C04_H_is_explicit_counterpart', 'C04_lnps_invariance', 'C04_effective_pgf_invariant',
             'C04_effective_pgf_invariant_dry', 'C04_effective_pgf_cloud_defect', 'C04_column_commutes',
-            'C04_temperature_modal_invariance', 'C04_divergence_invariance', 'C04_vorticity_invariance', 'C04_hyps_satisfiable',
+            'C04_temperature_modal_invariance', 'C04_divergence_invariance', 'C04_vorticity_invariance', 'C04_hyps_satisfiable', 'C04_modal_hyps_satisfiable',
             'C04_tref_split_cloud_refuted', 'C04_tref_split_invariance_R']
 LEVEL = 'proof'
 LEVEL_TEXT = ('machine-checked theorems (Coq) for every field, every layer count K>=1, all level sets, all column data and '
